@@ -529,7 +529,9 @@ fn coordinate_descent_with_intercept<'a, F: Float>(
 
         #[cfg(linfa_verif)]
         let mut vfired = false;
-        if n_steps == max_steps - 1 || abs_diff_eq!(w_max, F::zero()) || d_w_max / w_max < d_w_tol {
+        // `n_steps` counts the sweep just done: force the check in the last sweep of the budget, so
+        // that the duality gap that is returned is the gap of the coefficients that are returned
+        if n_steps == max_steps || abs_diff_eq!(w_max, F::zero()) || d_w_max / w_max < d_w_tol {
             // We've hit one potential stopping criteria
             // check duality gap for ultimate stopping criterion
             gap = duality_gap(x.view(), y.view(), w.view(), r.view(), l1_ratio, penalty);
@@ -704,7 +706,9 @@ fn block_coordinate_descent_with_intercept<'a, F: Float>(
 
         #[cfg(linfa_verif)]
         let mut vfired = false;
-        if n_steps == max_steps - 1 || abs_diff_eq!(w_max, F::zero()) || d_w_max / w_max < d_w_tol {
+        // `n_steps` counts the sweep just done: force the check in the last sweep of the budget, so
+        // that the duality gap that is returned is the gap of the coefficients that are returned
+        if n_steps == max_steps || abs_diff_eq!(w_max, F::zero()) || d_w_max / w_max < d_w_tol {
             // We've hit one potential stopping criteria
             // check duality gap for ultimate stopping criterion
             gap = duality_gap_mtl(x.view(), y.view(), w.view(), r.view(), l1_ratio, penalty);
